@@ -182,7 +182,7 @@ template <class X> struct ParseMon {
             typename X::State st; memset(&st, 0xCD, sizeof st); st.uri = &u;
             const Char* errPos = (const Char*)(uintptr_t)0x1; bool haveErr = true; int rc; const char* name;
             UriMemoryManager* mm = nullptr;
-            LibcWatch& lw = libc_watch(); lw.reset(); lw.live.clear();
+            LibcWatch& lw = libc_watch(); lw.reset(); lw.clear_live();
             size_t live_before = ledger.outstanding();
             c.stage((uint64_t)ep + 1);
             {
@@ -192,13 +192,23 @@ template <class X> struct ParseMon {
                 case 1: name = "ParseUri"; rc = X::ParseUri(&st, first); errPos = st.errorPos; break;
                 case 2: name = "ParseSingleUri"; rc = X::ParseSingleUri(&u, first, &errPos); break;
                 case 3: name = "ParseSingleUriEx"; rc = X::ParseSingleUriEx(&u, first, afterLast, &errPos); break;
-                case 4: name = "ParseSingleUriExMm"; mm = ledger.mgr(); rc = X::ParseSingleUriExMm(&u, first, afterLast, &errPos, mm); break;
+                case 4: name = "ParseSingleUriExMm"; mm = ledger.mgr();
+                    // now and then the manager refuses one request: the call may then fail with the out-of-memory code (C14 judges that), but
+                    // if it reports success, what it hands back is judged like any other successful parse
+                    if ((c.case_index % 5) == 1) ledger.arm((long)(1 + (c.case_index / 5) % 6), false);
+                    rc = X::ParseSingleUriExMm(&u, first, afterLast, &errPos, mm); break;
                 case 5: name = "ParseSingleUriEx(afterLast=NULL)"; rc = X::ParseSingleUriEx(&u, first, nullptr, &errPos); break;
                 case 6: name = "ParseSingleUriEx(errorPos=NULL)"; rc = X::ParseSingleUriEx(&u, first, afterLast, nullptr); haveErr = false; break;
                 default: name = "ParseSingleUriEx(range-inside-longer-buffer)"; rc = X::ParseSingleUriEx(&u, first, afterLast, &errPos); break;
                 }
             }
             c.evaluations++;
+            bool faulted = false;
+            if (mm) { faulted = ledger.failed > 0; ledger.fail_at = 0; ledger.fail_from = false; ledger.failed = 0; }
+            if (faulted) { c.count("parse_with_refused_request");
+                if (rc != URI_SUCCESS) {       // out of memory (or whatever C14 makes of it): just the caller's cleanup, then on to the next entry point
+                    { LibScope ls; X::FreeUriMembersMm(&u, mm); } ledger.release_all(); ledger.bad_free = 0; ledger.bad_free_note.clear(); continue; }
+                c.count("parse_succeeded_despite_refused_request"); }
             if (!gin.unchanged()) c.violation("C03", fmt("parse/%s/%s/input-modified", X::tag(), name), fmt("input=\"%s\"", esc(shown).c_str()));
             if ((rc == URI_SUCCESS) != acc) {
                 c.violation("C01", fmt("parse/%s/%s/%s", X::tag(), name, acc ? "rejects-valid" : "accepts-invalid"), fmt("input=\"%s\" rc=%d oracle_errpos=%zu", esc(shown).c_str(), rc, o));
